@@ -1,6 +1,7 @@
 package main
 
 import (
+	"fmt"
 	"strings"
 	"sync"
 )
@@ -40,8 +41,49 @@ func innerObjects(kind string, parent *Node, key string) []*Node {
 				}
 			}
 		}
+	case kStructSlice2:
+		if v.K == "arr" {
+			for _, in := range v.A {
+				if in.K == "arr" {
+					for _, e := range in.A {
+						if e.K == "obj" {
+							out = append(out, e)
+						}
+					}
+				}
+			}
+		}
+	case kDeep:
+		if v.K == "arr" {
+			for _, m := range v.A {
+				if m.K != "obj" {
+					continue
+				}
+				for _, ent := range m.O {
+					if ent.V.K == "arr" {
+						for _, e := range ent.V.A {
+							if e.K == "obj" {
+								out = append(out, e)
+							}
+						}
+					}
+				}
+			}
+		}
 	}
 	return out
+}
+
+// countNodes: size of a document value (used to recognise a wrapper around a single struct).
+func countNodes(n *Node) int {
+	c := 1
+	for _, e := range n.A {
+		c += countNodes(e)
+	}
+	for _, e := range n.O {
+		c += countNodes(e.V)
+	}
+	return c
 }
 
 func removeKeyInPlace(n *Node, key string) {
@@ -198,6 +240,17 @@ func candidates(c *Case) []*Case {
 				mk(f.Inner.clone(), v.A[0], c.Variant)
 			case f.Kind == kStructMap && v.K == "obj" && len(v.O) == 1 && v.O[0].V.K == "obj":
 				mk(f.Inner.clone(), v.O[0].V, c.Variant)
+			case f.Kind == kStructSlice2 || f.Kind == kDeep:
+				// [[d]] or [{"k":[d]}]: exactly one struct and nothing else inside the wrapper
+				if os := innerObjects(f.Kind, c.Doc, f.Key()); len(os) == 1 {
+					wrapper := 2
+					if f.Kind == kDeep {
+						wrapper = 3
+					}
+					if countNodes(v) == countNodes(os[0])+wrapper {
+						mk(f.Inner.clone(), os[0], c.Variant)
+					}
+				}
 			}
 		}
 	}
@@ -226,7 +279,7 @@ func candidates(c *Case) []*Case {
 	// 5b. replace the value of scalar-kind fields by the plain valid value, composite kinds by
 	// map[string]int, indirect scalars (array elements, map values, extras) by 7
 	strict = true
-	scalarKind := func(k string) bool { return !isComposite(k) && k != kStrSlice && k != kIntMap }
+	scalarKind := isScalarKind
 	for i, f := range c.Spec.Fields {
 		if f.Kind != kEmbed {
 			v, ok := c.Doc.get(f.Key())
@@ -270,6 +323,33 @@ func candidates(c *Case) []*Case {
 						mk(c.Spec, d, c.Variant)
 					}
 				}
+			}
+		}
+	}
+	// nested sequence -> its element kind with the first inner value ([][]T [[v..]] -> T/[]T)
+	for i, f := range c.Spec.Fields {
+		v, ok := c.Doc.get(f.Key())
+		if !ok || v.K != "arr" || len(v.A) == 0 || v.A[0].K != "arr" {
+			continue
+		}
+		first := v.A[0]
+		try := func(kind string, nv *Node) {
+			s := c.Spec.clone()
+			s.Fields[i].Kind, s.Fields[i].Inner = kind, nil
+			d := c.Doc.clone()
+			setMember(d, f.Key(), nv)
+			mk(s, d, c.Variant)
+		}
+		switch f.Kind {
+		case kStrSlice2:
+			try(kStrSlice, first)
+		case kIntSlice2:
+			if len(first.A) > 0 {
+				try(kInt, first.A[0])
+			}
+		case kMapSlice2:
+			if len(first.A) > 0 {
+				try(kIntMap, first.A[0])
 			}
 		}
 	}
@@ -503,11 +583,69 @@ type classified struct {
 	desc  string
 }
 
+// sigSet runs the case up to n times (no memo) and returns the distinct signatures seen; it
+// stops as soon as two different ones were seen.
+func sigSet(c *Case, n int) map[string]bool {
+	set := map[string]bool{}
+	for i := 0; i < n; i++ {
+		set[runCase(c).Sig] = true
+		if len(set) > 1 {
+			break
+		}
+	}
+	return set
+}
+
+// shrinkFlaky reduces a case whose outcome changes from one evaluation to the next (the loaders
+// are expected to be deterministic; e.g. a dependence on map iteration order breaks that). A
+// candidate is kept when its outcome still varies; signatures are meaningless here.
+func shrinkFlaky(c *Case) *Case {
+	cur := c
+	if c.Check != "fmt" || c.Variant != 0 {
+		if alt := (&Case{Check: "fmt", Spec: c.Spec, Doc: c.Doc}); !alt.Doc.hasNull() && len(sigSet(alt, 16)) > 1 {
+			cur = alt
+		}
+	}
+	for round := 0; round < 300; round++ {
+		progressed := false
+		for _, cand := range candidates(cur) {
+			if len(sigSet(cand, 16)) > 1 {
+				cur = cand
+				progressed = true
+				break
+			}
+		}
+		if !progressed {
+			break
+		}
+	}
+	return cur
+}
+
 // classify shrinks c (once per distinct case) and returns class key, minimal case, description.
 func classify(c *Case) *classified {
 	k := caseKey(c)
 	if v, ok := classMemo.Load(k); ok {
 		return v.(*classified)
+	}
+	// determinism probe: the same case must give the same outcome every time
+	probe := sigSet(c, 3)
+	probe[c.Sig] = true
+	if len(probe) > 1 {
+		m := shrinkFlaky(c)
+		var seen []string
+		for s := range sigSet(m, 16) {
+			if s == "" {
+				s = "agree"
+			}
+			seen = append(seen, s)
+		}
+		sortStrings(seen)
+		m.Sig = "nondeterministic"
+		cl := &classified{class: "nondeterministic:" + structShape(plainNames(m.Spec), lowerFieldKeys(m.Doc)), min: m,
+			desc: fmt.Sprintf("type %s, document %s: the outcome of loading the same text changes between evaluations (signatures seen: %s)", m.Spec, renderJSON(m.Doc), strings.Join(seen, " / "))}
+		classMemo.Store(k, cl)
+		return cl
 	}
 	m := shrink(c)
 	saved := runCase(m)
@@ -515,7 +653,6 @@ func classify(c *Case) *classified {
 	classMemo.Store(k, cl)
 	return cl
 }
-
 // ---- shape / class key --------------------------------------------------------------------------
 
 func fieldLabel(f FieldSpec) string {
